@@ -1752,7 +1752,7 @@ def match_note_arrays(
         return matched_idxs
 
 
-def remove_silence_from_performed_part(ppart):
+def remove_silence_from_performed_part(ppart, start_time=None):
     """
     Remove silence at the beginning of a PerformedPart
     by shifting notes, controls and programs to the beginning
@@ -1762,12 +1762,17 @@ def remove_silence_from_performed_part(ppart):
     ----------
     ppart : `PerformedPart`
         A performed part. This part will be edited in-place.
+    start_time : float, optional
+        The time that becomes 0. Defaults to the onset of the first
+        note of the part; the parts of one performance have to be
+        given a common value to stay together.
     """
     # Consider only Controls and Notes, since by default,
     # programs are created at the beginning of the file.
     # c_times = [c['time'] for c in ppart.controls]
-    n_times = [n["note_on"] for n in ppart.notes]
-    start_time = min(n_times)
+    if start_time is None:
+        n_times = [n["note_on"] for n in ppart.notes]
+        start_time = min(n_times)
 
     shifted_controls = []
     control_dict = defaultdict(lambda: defaultdict(lambda: defaultdict(list)))
